@@ -49,6 +49,8 @@ pub fn frame_set(name: &str) -> Vec<FrameSpec> {
         v.push(plain("rle3_cks", 0x00, true, vec![Blk::Rle(17, 1023), Blk::Raw(fresh(2, 1)), Blk::Rle(34, 1024)]));
         v.push(plain("empty_last", 0x00, false, vec![Blk::Rle(51, 1024), Blk::Rle(52, 1024), Blk::Raw(fresh(1, 2)), Blk::Raw(vec![])]));
         v.push(plain("w1280", 0x02, true, vec![Blk::Rle(1, 1024), Blk::Rle(2, 1024), Blk::Rle(3, 1024)]));
+        // five window-sized blocks: decode 3, drain to the window, decode 2 -> the data wraps around the ring end
+        v.push(plain("wrap5", 0x00, true, vec![Blk::Rle(61, 1024), Blk::Rle(62, 1024), Blk::Rle(63, 1024), Blk::Rle(64, 1024), Blk::Rle(65, 1024)]));
         // a match that reaches exactly one window back after more than a window was produced
         v.push(plain(
             "reach",
